@@ -493,6 +493,106 @@ def run_exhaustive(ctx, shards):
     return ncoll
 
 
+# ---------------------------------------------------------------------------
+# histories: several task_stats() / close_dependency_graph() calls in one process over overlapping task sets
+
+_SUMMARY = [0]
+
+
+def gen_history(rng):
+    ntasks = rng.randint(2, 7)
+    names = rng.sample(ODD_TASK_NAMES[:-1] + [f'task{k}' for k in range(8)], ntasks)
+    graph = []
+    for k in range(ntasks):
+        lower = list(range(k))
+        deps = rng.sample(lower, min(len(lower), rng.choice([0, 0, 1, 1, 2])))
+        soft = [d for d in rng.sample(lower, min(len(lower), rng.choice([0, 0, 1]))) if d not in deps]
+        status = 'DONE' if rng.random() < 0.55 else rng.choice(STATUSES)
+        graph.append([names[k], status, deps, soft])
+    calls = []
+    prev = None
+    for _ in range(rng.randint(2, 5)):
+        r = rng.random()
+        if prev is None or r < 0.3:
+            sel = sorted(rng.sample(range(ntasks), rng.randint(1, ntasks)))
+        elif r < 0.55:
+            sel = list(prev)                                            # the same tasks again
+        elif r < 0.8:
+            sel = sorted(set(prev) | set(rng.sample(range(ntasks), rng.randint(1, ntasks))))      # a superset
+        else:
+            sel = sorted(rng.sample(prev, rng.randint(1, len(prev))))  # a subset
+        calls.append([rng.choice(['stats', 'stats', 'stats', 'closure']), sel])
+        prev = sel
+    return {'history': True, 'graph': graph, 'calls': calls}
+
+
+def run_history(ctx, case, steps):
+    from valjean.cosette.task import TaskStatus, close_dependency_graph
+    from valjean.cosette.pythontask import PythonTask
+    from valjean.cosette.env import Env
+    from valjean.config import Config
+    from valjean.gavroche.diagnostics.stats import task_stats
+
+    def noop():
+        return {}, TaskStatus.DONE
+
+    tasks = []
+    for name, _status, deps, soft in case['graph']:
+        tasks.append(PythonTask(name, noop, deps=[tasks[d] for d in deps], soft_deps=[tasks[d] for d in soft]))
+    status = {name: st for name, st, _, _ in case['graph']}
+    config = Config()
+    codes = Codes(status)
+    for ncall, (kind, sel) in enumerate(case['calls']):
+        # the closure, computed here: breadth-first over hard and soft dependencies
+        todo, closure = list(sel), []
+        while todo:
+            k = todo.pop(0)
+            if k not in closure:
+                closure.append(k)
+                todo += case['graph'][k][2] + case['graph'][k][3]
+        want_names = sorted(case['graph'][k][0] for k in closure)
+        ctx.count('history_' + kind)
+        if kind == 'closure':
+            try:
+                got = sorted(t.name for t in close_dependency_graph([tasks[k] for k in sel]))
+            except Exception as exc:  # noqa
+                got = type(exc).__name__
+            if got != want_names:
+                ctx.oracle_failure(f'call {ncall}: close_dependency_graph gives {got}, the tasks and their '
+                                   f'dependencies are {want_names} :: {case}', case, key='history-closure')
+            continue
+        _SUMMARY[0] += 1
+        env = Env({name: {'status': TaskStatus[st]} for name, st in status.items()})
+        try:
+            stats = task_stats(name=f'summary{_SUMMARY[0]}', tasks=[tasks[k] for k in sel])
+            for task in (next(iter(stats.depends_on)), stats):
+                update, _ = task.do(env=env, config=config)
+                env.apply(update)
+            res = env[stats.name]['result'][0]
+            classify = {st.name: sorted(str(nf.name) for nf in lst) for st, lst in res.classify.items()}
+            verdict = bool(res)
+        except Exception as exc:  # noqa
+            ctx.oracle_failure(f'call {ncall}: task_stats raises {type(exc).__name__}: {str(exc)[:100]} :: {case}',
+                               case, key='history-raises-' + type(exc).__name__)
+            continue
+        want = {}
+        for name in want_names:
+            want.setdefault(status[name], []).append(name)
+        if {k: v for k, v in classify.items() if v} != want:
+            ctx.oracle_failure(f'call {ncall} (after {case["calls"][:ncall]}): task_stats over {sorted(sel)} lists '
+                               f'{classify}, the tasks and their dependencies ended as {want} :: {case}', case,
+                               key='history-task-classes')
+        if verdict != all(status[name] == 'DONE' for name in want_names):
+            ctx.oracle_failure(f'call {ncall}: the task summary is {verdict}, the observed tasks ended as {want} '
+                               f':: {case}', case, key='history-task-verdict')
+        # the same evaluation through the model, on the task environments in the order the summary saw them
+        observed = [(tn, tr['status'].name) for tn, tr in res.test.task_results]
+        ts = clist([f'({cz(codes.val(tn))}, {cn(STATUSES.index(st))})' for tn, st in observed])
+        cls = clist([f'({cn(STATUSES.index(st.name))}, {clist([cz(codes.val(str(nf.name))) for nf in lst])})'
+                     for st, lst in res.classify.items()])
+        steps.append((case, 'tasks', f'(ZTasks {ts} {cls} {cb(verdict)})', None))
+
+
 def run(ctx):
     common.import_repo()
     ctx.rule = ('random collections of 0-15 task results (repeated task names, every status, with/without a '
@@ -516,6 +616,15 @@ def run(ctx):
                        'Definition cases : list zcase :=\n ' + clist([s[2] for s in chunk]).replace('; (Z', ';\n (Z')
                        + '.\nEval vm_compute in bad_indices (map check_case cases).'))
     evaluations = ctx.evaluations
+    hsteps = []
+    for _ in range(200 if ctx.tier == 'quick' else 4000):
+        run_history(ctx, gen_history(rng), hsteps)
+    for k in range(0, len(hsteps), shard_size):
+        chunk = hsteps[k:k + shard_size]
+        shards.append(('rand', chunk,
+                       'Definition cases : list zcase :=\n ' + clist([s[2] for s in chunk]).replace('; (Z', ';\n (Z')
+                       + '.\nEval vm_compute in bad_indices (map check_case cases).'))
+    ctx.extra['history_summaries_compared'] = len(hsteps)
     run_exhaustive(ctx, shards)
     outs = common.coq_eval(ctx.pid, IMPORTS, [sh[2] for sh in shards])
     for (tag, chunk, _), out in zip(shards, outs):
